@@ -105,6 +105,11 @@ class AsyncioTransportStreamSocketAdapter(AsyncStreamTransport):
             await asyncio.shield(self.__protocol._get_close_waiter())
         except OSError:
             pass
+        except asyncio.CancelledError:
+            # Close abruptly: do not wait any longer for the pending data to be flushed.
+            if not self.__protocol._get_close_waiter().done():
+                self.__transport.abort()
+            raise
 
     def is_closing(self) -> bool:
         return self.__closing
